@@ -26,6 +26,7 @@ import (
 	"github.com/oxia-db/oxia/common/process"
 	"github.com/oxia-db/oxia/common/vhook"
 	"github.com/oxia-db/oxia/proto"
+	"github.com/oxia-db/oxia/server/wal"
 )
 
 // --- Session
@@ -111,6 +112,10 @@ func (s *session) delete() error {
 	sessionKey := SessionKey(s.id)
 	deleteSession := true
 	for {
+		// If nothing is in flight now, and the cleanup gets the very next offset in the log, then
+		// nothing was written between the read and the cleanup: no further round is needed
+		headOffset := s.logIsQuiet()
+
 		// Read "index"
 		keys, err := s.sm.leaderController.ListBlock(context.Background(), &proto.ListRequest{
 			Shard:          &s.shardId,
@@ -147,15 +152,36 @@ func (s *session) delete() error {
 			Deletes: deletes,
 		}
 		// server-side write: it addresses the session's own internal keys
-		if _, err = s.sm.leaderController.writeBlock(context.Background(), func(_ int64) *proto.WriteRequest { return cleanup }); err != nil {
+		cleanupOffset := wal.InvalidOffset
+		if _, err = s.sm.leaderController.writeBlock(context.Background(), func(offset int64) *proto.WriteRequest {
+			cleanupOffset = offset
+			return cleanup
+		}); err != nil {
 			return err
 		}
 		s.log.Info("Session cleanup complete",
 			slog.Int("keys-deleted", len(deletes)))
-		if len(keys) == 0 {
+		if len(keys) == 0 || (headOffset != wal.InvalidOffset && cleanupOffset == headOffset+1) {
 			return nil
 		}
 	}
+}
+
+// logIsQuiet returns the head offset of the log if every entry of the log has
+// been applied on the db already (i.e. no write is in flight), InvalidOffset
+// otherwise.
+func (s *session) logIsQuiet() int64 {
+	lc := s.sm.leaderController
+	qat := lc.quorumAckTracker
+	if qat == nil {
+		return wal.InvalidOffset
+	}
+	headOffset := qat.HeadOffset()
+	appliedOffset, err := lc.db.ReadCommitOffset()
+	if err != nil || appliedOffset != headOffset {
+		return wal.InvalidOffset
+	}
+	return headOffset
 }
 
 // ephemeralDeletes prepares the deletion of the records listed in the session
